@@ -490,6 +490,10 @@ func (s *segment) Replace(old *segment) error {
 	defer s.Unlock()
 	old.Lock()
 	defer old.Unlock()
+	// Closing seals a segment. Remember if the segment being replaced was
+	// sealed, i.e. is not the active segment, since this segment takes its
+	// place.
+	sealed := old.sealed
 	if err := old.close(); err != nil {
 		return err
 	}
@@ -511,6 +515,7 @@ func (s *segment) Replace(old *segment) error {
 	s.writer = log
 	s.reader = log
 	s.closed = false
+	s.sealed = sealed
 	old.replaced = true
 	return s.setupIndex()
 }
